@@ -147,7 +147,7 @@ class VTask(Task):
         if kind == "jump":
             done = int(stage.context.get("_jump_count", 0) or 0)
             rec["counter"] = done
-            if done < int(beh.get("times", 1)):
+            if done < int(beh.get("times", 1)) and rec["iter"] >= int(beh.get("from_iter", 0)):
                 outputs, ctx = self._outs(ref, beh, rec)
                 return TaskResult.jump_to(beh["to"], context=ctx, outputs=outputs)
             return self._finish(ref, beh, rec, then)
